@@ -110,4 +110,26 @@ Proof.
     step_txt. erewrite jbind_ok; [|apply IHd; lia]. unfold st_after. rewrite !set_cur_out, set_cur_idem.
     rewrite jtxt_out. rewrite !st_out_out, !scope_out. rewrite <- ?app_assoc. reflexivity.
 Qed.
+
+(* the statement {print e} under autoescape off: out += <expression>; *)
+Theorem cgen_print_stmt e fuel st : j_auto st = 2 -> (S (cdepth e) < fuel)%nat ->
+  jwalk o fuel (NPrint 0 (cnode e) []) st
+  = Ok (tt, st_after st ([CText (indent_text (j_indent st)); CName (j_buf st); CText t_pluseq]
+                         ++ jprint (cgen (j_scope st) e) ++ [CText t_semi_nl])).
+Proof.
+  intros Ha Hf. destruct fuel as [|f]; [lia|]. rewrite jwalk_S. cbn [soydoc_flags].
+  unfold st_after. set (st1 := jset_cur None st).
+  assert (H1 : j_auto st1 = 2 /\ j_indent st1 = j_indent st /\ j_buf st1 = j_buf st /\ j_scope st1 = j_scope st) by (subst st1; destruct st; cbn in *; auto).
+  destruct H1 as (A1 & I1 & B1 & S1). rewrite <- I1, <- B1, <- S1.
+  cbn [jwalk_node]. unfold visit_print.
+  erewrite jbind_ok; [|reflexivity]. cbn [print_scan]. erewrite jbind_ok; [|reflexivity]. rewrite A1. cbn [N.eqb].
+  change (2 =? 2) with true. cbn iota.
+  unfold jindent. erewrite jbind_ok; [|erewrite jbind_ok; [apply jtxt_out|reflexivity]].
+  unfold bufname. erewrite jbind_ok; [|erewrite jbind_ok; [reflexivity|reflexivity]].
+  erewrite jbind_ok; [|apply jemit_out]. cbn [rev print_opens]. erewrite jbind_ok; [|reflexivity].
+  erewrite jbind_ok; [|apply cgen_print; lia]. cbn [print_closes]. erewrite jbind_ok; [|reflexivity].
+  rewrite jtxt_out. unfold st_after. rewrite !set_cur_out. subst st1. rewrite set_cur_idem.
+  rewrite !st_out_out, !scope_out. cbn [app]. rewrite <- ?app_assoc. cbn [app].
+  destruct st; reflexivity.
+Qed.
 End Print.
